@@ -22,6 +22,11 @@ Definition check_assign_grid (g : bool) (K : nat) (base start stride : Z) (impl 
   okR (eq_zlist (map (fun i => perm_code K (assignZ g K (grid_entry base K (start + stride * Z.of_nat i)%Z)))
                      (seq 0 (length impl))) impl).
 
+(* ---- one integer matrix in the code's integer path (rows / columns overwritten with bottom) ---- *)
+Definition znth2 (M : list (list Z)) (i j : nat) : Z := nth j (nth i M []) 0%Z.
+Definition check_assign_int (K : nat) (M : list (list Z)) (bottom : Z) (impl : list nat) : bool * float :=
+  okR (eq_natlist (greedy_assign_int K (znth2 M) bottom) impl).
+
 (* ---- one binary64 matrix ---- *)
 Definition check_assign_float (g : bool) (K : nat) (M : list (list float)) (impl : list nat) : bool * float :=
   okR (eq_natlist (assign FO g K M) impl).
